@@ -26,6 +26,7 @@ KNOBS = {
     "p_faults": 0.4,
     "p_timeout": 0.2,
     "p_cancel_fault": 0.12,
+    "p_ack_fail": 0.08,
     "p_deps": 0.05,
     "durations": {"zero": 1, "tiny": 1, "short": 2, "medium": 4, "long": 4, "poll": 2},
     "arrival": ["burst", "burst", "waves", "trickle"],
